@@ -90,7 +90,8 @@ def caller_args(param, scheme, slot):
 NAMINGS = ("unrelated", "generated", "kwlike", "keyword")
 PATTERNS = ("pos", "kw", "mixed", "kw-rev", "kw-rot", "mixed-rev")
 RETS = ("array", "tuple", "dict")
-EXTRAS = ("single", "arg-expr", "twice", "nested2", "nested3", "chain", "same-arg-twice")
+EXTRAS = ("single", "arg-expr", "twice", "nested2", "nested3", "chain", "same-arg-twice",
+          "twice-shared-first-arg", "twice-same-args", "caller-recomputes-body")
 
 
 def bounds(tier):
@@ -113,7 +114,8 @@ def enumerate_cases(tier, seed):
                     for ex in EXTRAS:
                         cases.append({"body": bname, "ret": ret, "pattern": pat, "naming": nm, "extra": ex})
     if tier == "quick":
-        core = [c for c in cases if c["extra"] in ("single", "twice") and c["naming"] in ("unrelated", "generated")]
+        core = [c for c in cases if c["extra"] in ("single", "twice", "twice-shared-first-arg", "caller-recomputes-body")
+                and c["naming"] in ("unrelated", "generated")]
         rest = [c for c in cases if c not in core]
         cases = core + runner.slice_by_seed(rest, seed, 3)
     return cases
@@ -204,17 +206,27 @@ def run_case(case):  # noqa: C901
         r = call(fn_, params_, args, pat)
         return as_list(r, ret), substitute(outs_, params_, arg_terms_)
     try:
-        if ex in ("single", "arg-expr", "same-arg-twice"):
+        if ex == "caller-recomputes-body":
+            # the caller also computes, on the same arguments, what the body computes: the inlined body and the caller's own
+            # graph contain equal sub-expressions
+            rs, ts = do_call(fn, params, arg_terms, outs)
+            results += rs + [B(t) for t in ts]
+            ref_terms += ts + ts
+        elif ex in ("single", "arg-expr", "same-arg-twice"):
             rs, ts = do_call(fn, params, arg_terms, outs)
             results += rs
             ref_terms += ts
-        elif ex == "twice":
+        elif ex in ("twice", "twice-shared-first-arg", "twice-same-args"):
             rs, ts = do_call(fn, params, arg_terms, outs)
             results += rs
             ref_terms += ts
-            # the SAME definition called again with other arguments
+            # the SAME definition called again: with other arguments / sharing the first argument / with the same arguments
             fdef = rs[0]._container.function
             other = [["bin", "mul", a, ["py", -2.0]] for a in arg_terms]
+            if ex == "twice-shared-first-arg":
+                other[0] = arg_terms[0]
+            elif ex == "twice-same-args":
+                other = list(arg_terms)
             bind = {}
             for pname in fdef.parameters:
                 # parameter placeholder names: in__pt_<i> (positional) or in_<kw>
@@ -307,7 +319,7 @@ def run_case(case):  # noqa: C901
     # inlining
     try:
         snap_before = None
-        inl = pt.inline_calls(pt.tag_all_calls_to_be_inlined(dag))
+        inl = pt.inline_calls(pt.tag_all_calls_to_be_inlined(pt.transform.deduplicate(dag)))      # (mappers require a graph without structural duplicates; two equal calls written separately are duplicates)
     except Exception as e:  # noqa: BLE001
         viol.append({"sig": {**progcheck.exc_sig("inline_calls", e)}, "msg": f"{where}: " + progcheck.exc_msg("inline_calls", e)})
         return {"key": case, "nontrivial": False, "outcome": "violation", "violations": viol[:5]}
